@@ -232,6 +232,13 @@ func (b *backend) GetPartitions(ctx context.Context, r *proto.ListPartitionReque
 	resp.PartitionKeys = make([][]byte, 0, len(partitions)+1)
 
 	for idx, p := range partitions {
+		if idx != 0 && len(p.Start) >= 13 {
+			// a border inside the versions of one key is moved back to the index record of that key,
+			// as the scanner does, so that no key is streamed by two adjacent partitions
+			if userKey, revision, decodeErr := b.coder.Decode(p.Start); decodeErr == nil && revision != 0 {
+				p.Start = b.coder.EncodeRevisionKey(userKey)
+			}
+		}
 		// append range start of partition only
 		resp.PartitionKeys = append(resp.PartitionKeys, p.Start)
 
